@@ -144,11 +144,10 @@ def model_cone_canon(mo, with_covers=True):
 
 # ------------------------------------------------------------------------------------------------
 
-def stream_sigrep(ctx, rng, N):
+def stream_sigrep(ctx, rng, N, given=None):
     from sageopt.relaxations import sage_polys
     cases, lines, outs = [], [], []
-    for _ in range(N):
-        leaf, nv = gen_sym_poly(rng)
+    for leaf, nv in (given if given is not None else [gen_sym_poly(rng) for _ in range(N)]):
         env = st.SymEnv([nv])
         try:
             p = st.build_sym(leaf, env)
@@ -166,11 +165,11 @@ def stream_sigrep(ctx, rng, N):
             io = {'raises': type(e).__name__, 'msg': str(e)[:120]}
             line = {'op': 'poly.sigrep', 'p': leaf, 'chat': [CHAT0 + k for k in range(8)]}
             oracle = None
-        cases.append((leaf, oracle))
+        cases.append((leaf, oracle, nv))
         lines.append(line)
         outs.append(io)
     mouts = run_driver(lines)
-    for (leaf, oracle), io, mo in zip(cases, outs, mouts):
+    for (leaf, oracle, nv), io, mo in zip(cases, outs, mouts):
         if isinstance(mo, dict) and 'error' in mo:
             raise common.DriverError(mo['error'])
         ctx.case({'stream': 'sigrep', 'p': leaf}, nontrivial=len(leaf['c']) >= 2)
@@ -188,7 +187,7 @@ def stream_sigrep(ctx, rng, N):
         else:
             ctx.traces_validated += 1
         if oracle:
-            ctx.violation('signomial representative: ' + oracle, {'stream': 'sigrep', 'p': leaf})
+            ctx.violation('signomial representative: ' + oracle, {'stream': 'sigrep', 'p': leaf, 'nv': nv})
 
 
 def sigrep_oracle(rng, p, sr, cons, env):
@@ -444,11 +443,11 @@ def gen_con_case(rng):
     return {'f': f, 'gts': gts, 'eqs': eqs, 'p': rng.choice([0, 0, 1]), 'q': rng.choice([1, 1, 2]), 'ell': rng.choice([0, 0, 1])}
 
 
-def stream_lagrangian(ctx, rng, N):
+def stream_lagrangian(ctx, rng, N, given=None):
     import props.c04 as c04
     from sageopt.relaxations.sage_polys import make_poly_lagrangian
     from sageopt.coniclifts.base import Expression
-    cases = [gen_con_case(rng) for _ in range(N)]
+    cases = given if given is not None else [gen_con_case(rng) for _ in range(N)]
     reals = []
     for c in cases:
         try:
@@ -551,7 +550,7 @@ def poly_eval(leaf, x):
     return float(c @ np.prod(np.power(np.asarray(x, dtype=float), a), axis=1))
 
 
-def audit_relax(ctx, rng, cases):
+def audit_relax(ctx, rng, cases, pinned=None):
     for c in cases:
         n = c['f']['n']
         vals = {}
@@ -563,7 +562,7 @@ def audit_relax(ctx, rng, cases):
             vals[form] = rm.solve_ecos(prob)
         ctx.case({'stream': 'audit', 'case': c})
         ctx.count('stream:audit')
-        pts = real_points(rng, n, c['box'], 80)
+        pts = real_points(rng, n, c['box'], 80) + ([list(pinned)] if pinned else [])
         fmin = min(poly_eval(c['f'], x) for x in pts)
         xmin = min(pts, key=lambda z: poly_eval(c['f'], z))
         for form, (s, v) in vals.items():
@@ -584,7 +583,7 @@ def audit_relax(ctx, rng, cases):
                 ctx.incon('audit: finite primal and dual values differ by more than 1e-4 (strong duality is only observed)')
 
 
-def audit_constrained(ctx, rng, cases):
+def audit_constrained(ctx, rng, cases, pinned=None):
     import sageopt as so
     for c in cases:
         n = c['f']['n']
@@ -602,7 +601,7 @@ def audit_constrained(ctx, rng, cases):
         ctx.case({'stream': 'audit-constrained', 'case': c})
         ctx.count('stream:audit-constrained')
         feas = []
-        for x in real_points(rng, n, None, 300):
+        for x in real_points(rng, n, None, 300) + ([list(pinned)] if pinned else []):
             if all(float(g(np.array(x))) >= 0 for g in gts) and all(abs(float(h(np.array(x)))) <= 1e-9 for h in eqs):
                 feas.append(x)
         if eqs:
@@ -672,6 +671,7 @@ def run(ctx):
     rng = ctx.rng
     ctx.lean = common.lean_check('C05')
     quick = ctx.quick()
+    common.run_regressions(ctx, 'C05', recheck)
     stream_sigrep(ctx, rng, 120 if quick else 800)
     cases = stream_relax(ctx, rng, 50 if quick else 300)
     ccases = stream_lagrangian(ctx, rng, 40 if quick else 250)
@@ -706,18 +706,23 @@ def run(ctx):
         trusted=TRUSTED, assumptions=ASSUME)
 
 
+def recheck(r):
+    """execute the stored input of a violation again; the violation it (still) shows, or None"""
+    import random
+    ctx, rng = common.RecCtx(), random.Random(0)
+    k = r.get('stream')
+    if k == 'audit':
+        audit_relax(ctx, rng, [r['case']], pinned=r.get('point'))
+    elif k == 'audit-constrained':
+        audit_constrained(ctx, rng, [r['case']], pinned=r.get('point'))
+    elif k == 'lagrangian':
+        stream_lagrangian(ctx, rng, 0, given=[r['case']])
+    elif k == 'sigrep':
+        stream_sigrep(ctx, rng, 0, given=[(r['p'], r.get('nv', 8))])
+    return ctx.first()
+
+
 def replay(obj):
     print('what:', obj['what'])
-    r = obj['replay']
-    if r.get('stream') == 'audit':
-        c = r['case']
-        for form in ('primal', 'dual'):
-            try:
-                print(form, rm.solve_ecos(relax_build(c, form)))
-            except Exception as e:  # noqa: BLE001
-                print(form, 'raised', e)
-        if 'point' in r:
-            print('p(point) =', poly_eval(c['f'], r['point']))
-    else:
-        print(common.canon_json(r)[:1500])
+    print(common.canon_json(obj['replay'])[:1500])
     return 1
